@@ -503,3 +503,77 @@ def node_calls_c(node):
     if node.ast is None or node.kind == "loop":
         return []
     return [c for c in walk(node.ast) if c.get("kind") == "CallExpr"]
+
+
+# ---------------------------------------------------------------------------------------------------------------------
+# linear forms of integer C expressions (locals with one assignment expanded): used to state overlap / bound tests semantically
+
+def local_defs(func):
+    """name -> the single expression assigned to a local of the function (declaration initialiser or one `name = expr;`), None when
+    the local is assigned more than once or updated in place (it then stays an opaque symbol)."""
+    defs = {}
+    for n in walk(func.body):
+        k = n.get("kind")
+        if k == "VarDecl" and n.get("inner"):
+            init = [x for x in n["inner"] if x.get("kind") not in ("FullComment",)]
+            if init:
+                defs.setdefault(n.get("name"), []).append(init[-1])
+        if k == "BinaryOperator" and n.get("opcode") == "=":
+            l = strip(n["inner"][0])
+            if l.get("kind") == "DeclRefExpr":
+                defs.setdefault(l.get("referencedDecl", {}).get("name"), []).append(n["inner"][1])
+        if k in ("CompoundAssignOperator",) or (k == "UnaryOperator" and n.get("opcode") in ("++", "--")):
+            l = strip(n["inner"][0])
+            if l.get("kind") == "DeclRefExpr":
+                defs.setdefault(l.get("referencedDecl", {}).get("name"), []).extend([None, None])
+    return dict((k, v[0]) for k, v in defs.items() if len(v) == 1 and v[0] is not None)
+
+
+def c_linear(e, defs=None, depth=0):
+    """(frozenset of (term text, coefficient), constant) of an integer C expression built with + - and literals; locals with a single
+    definition are expanded; everything else is an opaque term named by its source text."""
+    defs = defs or {}
+    terms = {}
+    const = [0]
+
+    def add(n, sign, d):
+        n = strip(n)
+        k = n.get("kind")
+        if k == "BinaryOperator" and n.get("opcode") in ("+", "-"):
+            add(n["inner"][0], sign, d)
+            add(n["inner"][1], sign if n["opcode"] == "+" else -sign, d)
+            return
+        if k == "UnaryOperator" and n.get("opcode") == "-":
+            add(n["inner"][0], -sign, d)
+            return
+        v = const_int(n)
+        if v is not None:
+            const[0] += sign * v
+            return
+        if k == "DeclRefExpr":
+            nm = n.get("referencedDecl", {}).get("name")
+            if nm in defs and d < 6:
+                add(defs[nm], sign, d + 1)
+                return
+        t = ctext(n)
+        terms[t] = terms.get(t, 0) + sign
+    add(e, 1, depth)
+    return frozenset((k, v) for k, v in terms.items() if v != 0), const[0]
+
+
+def c_less_than(test, polarity, defs=None):
+    """For an integer comparison node: (L, R) linear forms such that the comparison with the given truth value says  L < R  strictly
+    (a <= b becomes a < b + 1); None when the node is not an ordering comparison."""
+    e = strip(test)
+    if e.get("kind") != "BinaryOperator" or e.get("opcode") not in ("<", "<=", ">", ">="):
+        return None
+    op = e["opcode"]
+    l, r = c_linear(e["inner"][0], defs), c_linear(e["inner"][1], defs)
+    if not polarity:
+        op = {"<": ">=", "<=": ">", ">": "<=", ">=": "<"}[op]
+    if op in (">", ">="):
+        l, r = r, l
+        op = "<" if op == ">" else "<="
+    if op == "<=":
+        r = (r[0], r[1] + 1)
+    return l, r
